@@ -43,6 +43,33 @@ CHECKS.update({
     ),
 })
 
+CHECKS.update({
+    "C02": dict(
+        category="exploration",
+        technique="exhaustive enumeration of every reader method of *decode.D (discovered by reflection) x width 1..64 x 8 alignments x both endians x all 2^w patterns for w<=10 (boundary family beyond), against math/big reference functions",
+        text="2458 reader methods found by reflection (413 base readers in plain/Try/Field/TryField/FieldScalar/TryFieldScalar forms) are each called for every width, start alignment (surrounding bits once all zero, once all one), endian setting and the pattern family (all 2^w patterns for w<=10; thorough w<=16; boundary patterns beyond), floats (all 65536 half patterns; sign x exponent x mantissa products for 32/64/80 bit), fixed point, LEB128 (all 1 and 2 group encodings + boundary encodings), unary runs 0..70, text readers over 156 strings x 13 encodings; every successful case is repeated on a buffer one bit too short. Value, consumed bits, field range and failure behaviour are compared with reference functions written from the definitions with math/big. An unclassifiable method fails the run.",
+        design_ref="§C02",
+        note="Assumptions recorded in evidence (little endian judged at whole-byte widths, LEB128 cases where either outcome is accepted, x87 pseudo-specials out of domain, floats judged against the correctly rounded float64, position after a failed read not judged). Quick runs the 65536 half patterns and two-group LEB128 encodings at one rotating (alignment, fill) slot; thorough uses the full product.",
+        engine="enum",
+    ),
+    "C19": dict(
+        category="model_checking",
+        technique="BFS over packet histories (state = capture prefix, successor = history + one packet) of generated conversations: every segmentation x interleaving x single deviation (swap, duplicate, overlap, omission, fragmentation), every capture decoded by the real pcap/pcapng decoders and compared with a reference TCP stream / IPv4 defragmentation model",
+        text="Hand-written (gopacket independent) Ethernet/SLL/SLL2/loopback/raw/IPv4/TCP framing and pcap LE/BE/ns and pcapng writers generate every conversation in the bound: 1-2 connections, payload 0..6 bytes per direction, every segmentation into <=3 segments, every interleaving, handshake and FIN present/absent, then every single deviation at every placement (thorough: pairs of deviations), all link types x capture formats, a fragment grid (2 and 3 fragments at every 8 byte boundary in every arrival order), 4 KiB/64 KiB payloads and sequence number wrap. Each capture is decoded by fq and endpoint addresses/ports, stream bytes, skipped_bytes>0 iff data behind a missing byte was captured, has_start/has_end and ipv4_reassembled are compared with a reference stream model (RFC 793/791).",
+        design_ref="§C19",
+        note="Trusted: the reference stream model and the writer (self-verifying checksums). Not judged: directions without a SYN whose first byte was never captured; exact skipped_bytes value. Known finding: gopacket v1.3.1 Sequence.Difference off by one at the 2^32 wrap (dependency, cannot be repaired inside the repository), isolated in its own section.",
+        engine="seqx",
+    ),
+    "C20": dict(
+        category="model_checking",
+        technique="stateless DFS over all thread interleavings under a cooperative scheduler with iterated preemption bound (0,1,2,3) then unbounded with state pruning, on ctxstack instrumented at check time by an AST rewriter (access points on every Stack field, go statements, channel close/poll, sync -> shim); vector-clock race detection, deadlock detection, linearizability oracle; plus explicit-state BFS over push/finish/interrupt/stop histories against a stack model",
+        text="(1) BFS to depth 7 (thorough 9) over push (child of the innermost live evaluation or of background) / finish of any handle incl. double and out-of-order finish / interrupt / stop on the real ctxstack.Stack, every context's cancellation state compared with a stack model after every step, states merged by a deep hash of the real object. (2) 11 scenarios of an evaluating thread, the trigger goroutine delivering 1-2 interrupts and an optional stopping thread: every schedule with <= 3 preemptions, then every schedule (state pruned), on a copy of ctxstack.go instrumented at check time from the live source (so removed locks or new unsynchronised accesses are seen); each execution is checked for Go panics, unordered conflicting accesses (vector clocks over spawn, mutex, once, channel close->poll edges), deadlock, livelock and linearizability of what the evaluating thread observes. (3) REPL sessions nested 1..3 levels with the interrupt delivered at the k-th stdout write of a line: nothing of the interrupted evaluation is written afterwards, the same level runs the next line, outer levels survive. (4) iox.CtxWriter and ctxreadseeker over all short Read/Seek/Close sequences with cancellation at every boundary and inside every underlying call.",
+        design_ref="§C20",
+        note="Trusted: the scheduler (src/vhook, ~500 lines), the AST rewriter (tools/instr), the stack model. Hooked accesses are explored as sequentially consistent atomic steps. The unbounded pass uses state pruning and decides outcomes and deadlocks; races are decided by the bounded passes. (3) uses a 150 ms settle time after the interrupt token was consumed and re-runs with 1.5 s before reporting; whether ctxreadseeker's worker closes the file after a cancellation that ties with a result hand-over depends on the Go runtime's select choice and is not judged.",
+        engine="sched",
+    ),
+})
+
 NOT_YET = {
 }
 
